@@ -123,8 +123,11 @@ pub fn run(ctx: &Ctx) -> Report {
     let d = if ctx.quick() { 1 } else { 2 };
     let mut jobs = vec![];
     for drv in drivers() {
-        for w in ["2", "3"] {
+        for w in ["1", "2", "3"] {
             for um in [0o022u32, 0o077] {
+                if w == "1" && um != 0o022 {
+                    continue;
+                }
                 let tree = vec![
                     Entry::dir("src"),
                     Entry::new("src/p1", Kind::Fifo).mode(0o666),
@@ -138,6 +141,8 @@ pub fn run(ctx: &Ctx) -> Report {
                 for b in base_specs() {
                     jobs.push((s.clone(), b, d));
                 }
+                // the eager-parking policy: the workers sleep on the empty queue while the walker is still at it
+                jobs.push((s.clone(), RunSpec::base(Policy::P2), d));
             }
         }
     }
